@@ -85,6 +85,7 @@ type asmCheck struct {
 // driver validates the fixed part of an assembler around its case analysis and resolves the local variables by the
 // role they play (not by name): a non-repeated column reads one level, `d := defs[0]`, and returns (values, 1);
 // a repeated column walks the levels of one record:
+//
 //	for i := range defs { d := defs[i]; r := reps[i]; if i > 0 && r == 0 { break }; levels++; ind.rep(r); switch d {…} }
 //	return values, levels
 func (a *asmCheck) driver(fd *ast.FuncDecl, loop bool) string {
